@@ -122,13 +122,20 @@ def run(ctx):
 
     # 2. drive the real serializers
     nproc = 8 if quick else 14
-    per = 300 if quick else 9000
+    per = 300 if quick else 3000
     khist = 3 if quick else 5
     procs = []
+    extra = []
+    if ctx.replay:
+        case = (json.load(open(ctx.replay)).get("replay") or {}).get("case") or {}
+        if not case.get("hex"):
+            raise vlib.Infra("replay file carries no input bytes (inputs longer than 1600 bytes are not kept)")
+        extra = ["-inhex", case["hex"], "-first", case.get("first", "Ethernet")]
+        nproc, per, khist = 2, 1, 40
     for k in range(nproc):
         tp = os.path.join(wd, "t-%d.ndjson" % k)
         cmd = [binp, "-mode", "c07", "-n", str(per), "-seed", str(ctx.seed * 1000 + k), "-hist", hp,
-               "-khist", str(khist), "-trace", tp] + (["-probe"] if k == 0 else [])
+               "-khist", str(khist), "-trace", tp] + (["-probe"] if k == 0 else []) + extra
         procs.append((k, tp, subprocess.Popen(cmd, env=vlib.goenv(), stdout=subprocess.PIPE, stderr=subprocess.PIPE, text=True)))
     stats = {"cases": 0, "calls": 0, "events": 0}
     for k, tp, p in procs:
@@ -145,8 +152,8 @@ def run(ctx):
     # 3. TLC judges every call
     def val(job):
         k, tp, _ = job
-        return tp, vlib.validate_trace("SerPureTrace", tp, "c07-%d" % k, heap="6g", timeout=3000)
-    with ThreadPoolExecutor(max_workers=4 if quick else 7) as ex:
+        return tp, vlib.validate_trace("SerPureTrace", tp, "c07-%d" % k, heap="5g", timeout=3000)
+    with ThreadPoolExecutor(max_workers=4 if quick else 6) as ex:
         results = list(ex.map(val, procs))
     tstates = lines = nbad = 0
     hist = {"n": 0, "agree": 0, "dirty": 0}
@@ -187,7 +194,7 @@ def run(ctx):
     log("[C07] TLC judged %d events (%d rejected before known findings); histories as modelled: %d/%d, really dirty: %d"
         % (lines, nbad, hist["agree"], hist["n"], hist["dirty"]))
     rc = V.finish()
-    nst = self_test(procs[1][1], wd)
+    nst = 0 if ctx.replay else self_test(procs[1][1], wd)
     cov = {"evaluations": stats["calls"], "distinct_nontrivial": stats["cases"],
            "rule": "evaluation = one SerializeTo call judged by TLC; non-trivial = a distinct layer value (input, first type, layer "
                    "index) written under 4 option sets into the fresh buffer and %d dirty histories, twice each" % khist,
